@@ -33,6 +33,7 @@ REG = "ant_service_management::NodeRegistry"
 
 
 def run(R):
+    port_rules(R)
     F = R.F
     owners = [NS + "on_start", NS + "on_stop", NS + "on_remove"]
     R.who_may_write("C19.own.status", NSD, "status", owners, floor=3, descr="NodeServiceData.status is assigned only in NodeService::on_start/on_stop/on_remove")
@@ -335,3 +336,52 @@ def _pid_arg(R, rule, body, srcs):
     if not ok:
         R.viol(rule, "pid-source", "the pid given to on_start is not the one reported by the OS / the node", body, body.lines[0])
     R.inst(rule, "K6 flows-to", "on_start(Some(pid)) receives the pid from get_process_pid / node_info", len(cs), ok)
+
+
+CPA = NM + "helpers::check_port_availability"
+
+
+def port_rules(R):
+    """check_port_availability: every port a service records (node, metrics, RPC) is collected; a requested single port or *every*
+    port of a requested range (inclusive: `PortRange::Range(a, b)` means a..=b everywhere else) is compared with them; Ok only if
+    none is taken."""
+    from flow import backward_calls
+    from rules import ForallGuard, closures_passed
+    F = R.F
+    cp = R.body("C19.ports", CPA)
+    if cp is None:
+        return
+    prep(cp)
+    g = cfg_of(cp)
+    # (1) the three recorded ports are collected
+    pushes = [b for b in cp.blocks if b["term"]["k"] == "call" and not b["cleanup"] and callee_matches(b["term"], ["alloc::vec::Vec::push"])]
+    got = set()
+    for b in pushes:
+        locs, calls = backward_calls(cp, op_local(b["term"]["args"][1]))
+        for blk in cp.blocks:
+            for st in blk["stmts"]:
+                if st["d"][0] in locs:
+                    rv = st["rv"]
+                    pl = rv["a"][1] if rv["k"] == "use" and rv["a"][0] in ("cp", "mv") else rv.get("p") if rv["k"] in ("ref", "discr") else None
+                    for e in (pl or [])[1:]:
+                        if e in (".metrics_port", ".node_port", ".rpc_socket_addr"):
+                            got.add(e[1:])
+    ok1 = got == {"metrics_port", "node_port", "rpc_socket_addr"}
+    if not ok1:
+        R.viol("C19.ports.collected", "ports-collected", "check_port_availability compares only %s of a recorded service (expected node_port, metrics_port and the RPC port)" % sorted(got), cp, cp.lines[0])
+    R.inst("C19.ports.collected", "K6 flows-to", "node, metrics and RPC port of every recorded service take part in the comparison", len(pushes), ok1, {"fields": sorted(got)})
+    # (2) a range is walked inclusively
+    incl = [c for c in cp.calls if (c["ncallee"] or "") == "core::ops::range::RangeInclusive::new"]
+    excl = [a for a in cp.aggregates if (a.get("adt") or "").startswith("core::ops::range::Range") and not (a.get("adt") or "").startswith("core::ops::range::RangeInclusive")]
+    ok2 = bool(incl) and not excl
+    if not ok2:
+        R.viol("C19.ports.range", "range-exclusive", "check_port_availability does not walk a requested port range inclusively (start..=end): the last port of the range is not compared", cp, cp.lines[0])
+    R.inst("C19.ports.range", "K7 table agreement", "PortRange::Range(a, b) is checked as a..=b", len(incl) + len(excl), ok2)
+    # (3) Ok only if no requested port is taken: from the "taken" side of each membership test Ok is unreachable
+    taken = CallGuard(["*core::iter::traits::iterator::Iterator>::any", "core::slice::<impl [T]>::contains", "alloc::vec::Vec::contains", "*::contains"], ("true",), "requested port is recorded by a service")
+    n, acc, rej = taken.edges(cp)
+    oks = set(RetSink("Ok").blocks(cp))
+    ok3 = n >= 2 and bool(acc) and all(not (g.reach((d,)) & oks) for _, d in acc)
+    if not ok3:
+        R.viol("C19.ports.refuse", "taken-port-accepted", "check_port_availability can return Ok although a requested port is recorded by another service (or a membership test is missing: %d found, 2 expected)" % n, cp, cp.lines[0])
+    R.inst("C19.ports.refuse", "K4r reject-edge", "a taken port (single, or any of a range) makes the check fail", n, ok3)
